@@ -355,6 +355,12 @@ func genC11(rt *rapid.T) *c11Script {
 	s.Labels = [2]uint64{a, b}
 	for k := 0; k < 2; k++ {
 		s.Pads[k] = rapid.SampledFrom([]int{0, 1, 50, 50, 32 * 1024}).Draw(rt, "pad")
+		if k == 1 && s.Labels[0] == s.Labels[1] {
+			// one sender in one term has one snapshot per label: equal labels mean the same bytes
+			// (possibly chunked differently); different bytes under one label cannot be told apart by
+			// any receiver and no sender produces them
+			s.Pads[1] = s.Pads[0]
+		}
 		n := len(s.snapBytes(k))
 		chunks := rapid.IntRange(1, 3).Draw(rt, "chunks")
 		set := map[int]bool{}
